@@ -136,6 +136,27 @@ Definition heap_fuel (c : hcfg) : nat := Z.to_nat (h_size c / NODE + 2).
 Definition aligned_size (size : Z) : Z :=
   w64 (align_forward (w64 (size + NODE)) ALLOC_ALIGN - NODE).
 
+(* size > (@usize)(-1) - #@HeapNode - ALLOC_ALIGN : aligning it would overflow *)
+Definition size_too_large (size : Z) : bool :=
+  size >? w64 (w64 (w64 (-1) - NODE) - ALLOC_ALIGN).
+
+(* realloc's split: the remainder is merged with the chunk after it when that one is free
+   (the size field of [node] still holds the old size) *)
+Definition split_chunk_coalesce (bins : list Z) (m : mem) (node size : Z) : list Z * mem :=
+  let split_size := w64 (w64 (n_size m node - size) - NODE) in
+  let m := mset m node size in
+  let split := next_adj m node in
+  let m := mset m split split_size in
+  let m := mset m (split + 8) node in
+  let next := next_adj m split in
+  let '(bins, m) :=
+    if negb (is_used m next) then
+      let '(bins, m) := remove_node bins m next in
+      (bins, mset m split (w64 (w64 (n_size m split + NODE) + n_size m next)))
+    else (bins, m) in
+  let m := mset m (next_adj m split + 8) split in
+  add_node bins m split.
+
 (* split [node] (whose size field still holds the old size) down to [size]; adds the remainder
    to its bin *)
 Definition split_chunk (bins : list Z) (m : mem) (node size : Z) : list Z * mem :=
@@ -149,6 +170,7 @@ Definition split_chunk (bins : list Z) (m : mem) (node size : Z) : list Z * mem 
 
 Definition heap_alloc_raw (c : hcfg) (bins : list Z) (m : mem) (size : Z) : hres (list Z * mem * Z) :=
   if size =? 0 then HOk (bins, m, 0)
+  else if size_too_large size then HOk (bins, m, 0)
   else
     let size := aligned_size size in
     let bi0 := get_bin_index size in
@@ -206,11 +228,12 @@ Definition heap_realloc_raw (c : hcfg) (bins : list Z) (m : mem) (p size : Z) : 
   else
     let head := get_ptr_node m p in
     if head =? 0 then HPanic
+    else if size_too_large size then HOk (bins, m, 0)
     else
       let size := aligned_size size in
       let shrink (bins : list Z) (m : mem) : hres (list Z * mem * Z) :=
         if (n_size m head >? size) && (n_size m head >? w64 (size + (NODE + MIN_ALLOC_SIZE)))
-        then let '(bins, m) := split_chunk bins m head size in HOk (bins, m, p)
+        then let '(bins, m) := split_chunk_coalesce bins m head size in HOk (bins, m, p)
         else HOk (bins, m, p) in
       if size >? n_size m head then
         let next := next_adj m head in
